@@ -266,15 +266,25 @@ func checkC02(c *Ctx, r *Report) {
 			label := exitLabel(p)
 			rsp := p.Resolve(ret.Results[0])
 			okTag, okStatus, okErr := false, false, false
-			for _, rel := range p.relations() {
+			occs := p.OccsPos()
+			// a compared value is the response's field: read directly, or copied first into a
+			// small header value that a helper receives (store-to-load forwarding along the path)
+			isField := func(rel RelationPos, v ssa.Value, base ssa.Value, f string) bool {
+				if p.loadOfField(v, base, f) {
+					return true
+				}
+				o := p.originAt(occs, rel.At, rel.Ctx, v)
+				return o != nil && p.loadOfField(o, base, f)
+			}
+			for _, rel := range p.relationsPos(occs) {
 				if rel.Op != token.EQL {
 					continue
 				}
 				for _, pr := range [][2]ssa.Value{{rel.X, rel.Y}, {rel.Y, rel.X}} {
-					if p.loadOfField(pr[0], rsp, "Tag") && p.loadOfField(pr[1], req, "Tag") {
+					if isField(rel, pr[0], rsp, "Tag") && isField(rel, pr[1], req, "Tag") {
 						okTag = true
 					}
-					if p.loadOfField(pr[0], rsp, "Status") {
+					if isField(rel, pr[0], rsp, "Status") {
 						if kk, isK := constInt(p.Resolve(pr[1])); isK && kk == 0 {
 							okStatus = true
 						}
